@@ -2,12 +2,14 @@
 from __future__ import annotations
 
 import collections
+import json
+import os
 import warnings
 
 from . import formats_common as fc
 from .common import Oracle, Suite, errname, merge
 
-GEN_UNITS = ["Contexts", "B64", "Handlers", "PyUnicode", "PyCase", "StaticFmt", "Disabled", "Registry"]
+GEN_UNITS = ["Contexts", "B64", "Handlers", "PyUnicode", "PyCase", "StaticFmt", "Disabled", "Registry", "ContextPolicy"]
 LEAN_TARGETS = ["PasslibVerif.Props.C17"]
 ASSUMPTIONS = [
     "the format models behind the shapes are the real hashers' from_string / to_string / identify: checked by ./check C07 and, for identify of all 76 registered names, again here",
@@ -228,6 +230,47 @@ def check_context_scheme(o, label, ctx, name, items, with_update):
             o.check(short_label(label) + ":verify_and_update", False, inp, errname(e) + ": " + str(e)[:80], "no error")
 
 
+def preset_extra_cases():
+    """(tag, input, ok, observed, expected): the exported contexts are the same whatever order the preset modules are imported in (fresh process per
+    order); entries of the store-the-password schemes are recognised as text and as bytes in a legacy encoding, also when the password starts with a
+    disabled-account marker"""
+    import itertools
+    import subprocess
+    import sys
+
+    here = os.path.dirname(os.path.abspath(__file__))
+    results = {}
+    for order in itertools.permutations(["hosts", "apache", "apps"]):
+        p = subprocess.run([sys.executable, "-W", "ignore", os.path.join(here, "c17_import_order.py"), "/repo", *order], capture_output=True, text=True, timeout=120)
+        try:
+            results[order] = json.loads(p.stdout)
+        except Exception:  # noqa: BLE001
+            results[order] = {"crash": p.stderr[-300:]}
+    base_order = ("apache", "apps", "hosts")
+    base = results[base_order]
+    for order, r in results.items():
+        diff = {k: (r.get(k), base.get(k)) for k in set(r) | set(base) if r.get(k) != base.get(k)}
+        yield ("import-order", {"op": "import-order", "order": list(order)}, not diff, diff, f"the scheme lists of import order {list(base_order)}")
+    from passlib.apache import htpasswd_context
+    from passlib.apps import ldap_context, ldap_nocrypt_context
+
+    for label, c, scheme in (("apps.ldap_context", ldap_context, "ldap_plaintext"), ("apps.ldap_nocrypt_context", ldap_nocrypt_context, "ldap_plaintext"),
+                             ("apache.htpasswd_context", htpasswd_context, "plaintext")):
+        for pw in ("pässwörd", "s3cret", "*secret*", "!bang", "*", "ÿ", "naïve café"):
+            if scheme == "ldap_plaintext" and pw.startswith(("*", "!")) is False and pw == "":
+                continue
+            for enc in (None, "utf-8", "latin-1", "cp1252"):
+                inp = {"op": "stored-password", "context": label, "password": pw, "as": enc or "text"}
+                try:
+                    stored = c.hash(pw, scheme=scheme, **({"encoding": enc} if enc else {}))
+                    entry = stored if enc is None else stored.encode(enc)
+                    kw = {"encoding": enc} if enc not in (None, "utf-8") else {}
+                    obs = (c.identify(entry), c.verify(pw, entry, **kw), c.verify(pw + "x", entry, **kw))
+                except Exception as e:  # noqa: BLE001
+                    obs = errname(e) + ": " + str(e)[:80]
+                yield ("stored-password-entry", inp, obs == (scheme, True, False), obs, (scheme, True, False))
+
+
 def registry_oracle(o):
     warnings.simplefilter("ignore")
     import passlib.hash
@@ -355,6 +398,8 @@ def correspond(ctx):
                 hs = c.hash("ordinary pw", scheme=s)
                 o_ctx.check(short + ":plain-ordinary", c.identify(hs) == s and c.verify("ordinary pw", hs) is True, {"op": "ctx-identify", "context": label, "scheme": s, "hash": hs}, c.identify(hs), s)
     registry_oracle(o_reg)
+    for tag, inp, ok, obs, exp in preset_extra_cases():
+        o_ctx.check(tag, ok, inp, obs, exp)
     return merge(s_id, s_sh, s_out, s_at, o_ctx, o_reg)
 
 
@@ -373,6 +418,8 @@ def search(ctx, broken, seeds):
             own = ctx_hashes(c, label, s, rng, 1) if can_hash(s) and not (s in fc.EXPENSIVE and len(schemes) > 20) else []
             check_context_scheme(o_ctx, label, c, s, items + own, with_update=len(schemes) <= 20)
     registry_oracle(o_reg)
+    for tag, inp, ok, obs, exp in preset_extra_cases():
+        o_ctx.check(tag, ok, inp, obs, exp)
     for o in (o_ctx, o_reg):
         if o.mismatches:
             m = o.mismatches[0]
